@@ -63,7 +63,8 @@ func listenRecorder(w *Worker, fr *frame, args []Value) (Value, bool) {
 }
 
 func init() {
-	for _, n := range []string{"crypto/tls.Dial", "github.com/pion/dtls/v2.Dial", "net.Dial"} {
+	for _, n := range []string{"crypto/tls.Dial", "github.com/pion/dtls/v2.Dial", "net.Dial", "net.DialTCP", "net.DialUDP", "net.DialTimeout",
+		"crypto/tls.DialWithDialer", "github.com/pion/dtls/v2.DialWithContext", "github.com/pion/dtls/v2.Client", "crypto/tls.Client"} {
 		intrinsics[n] = dialRecorder
 	}
 	for _, n := range []string{"crypto/tls.Listen", "github.com/pion/dtls/v2.Listen", "net.Listen", "net.ListenUDP"} {
@@ -111,27 +112,46 @@ func init() {
 		return &cell, true
 	}
 	// ---- protobuf runtime (unsafe/reflect based): uninterpreted
-	intrinsics["google.golang.org/protobuf/proto.Marshal"] = func(w *Worker, fr *frame, args []Value) (Value, bool) {
-		w.recordCall(fr, args)
-		// arbitrary bytes of symbolic content; the length is split over a short menu
-		lens := []int{0, 7}
-		if w.E.Cfg.Tier > 0 {
-			lens = []int{0, 1, 2, 7, 300}
+	// every marshalling entry point is recorded under the name of proto.Marshal
+	// with the message as argument 0, so that a harness does not depend on which
+	// one the code uses
+	marshal := func(msgArg, dstArg int) intrinsic {
+		return func(w *Worker, fr *frame, args []Value) (Value, bool) {
+			calls, _ := w.pathState["calls"].([]stubCall)
+			mfn := w.E.Prog.ImportedPackage("google.golang.org/protobuf/proto").Func("Marshal")
+			calls = append(calls, stubCall{name: "google.golang.org/protobuf/proto.Marshal", fn: mfn, args: []Value{args[msgArg]}})
+			w.pathState["calls"] = calls
+			w.stub("protobuf proto.Marshal / MarshalOptions.Marshal / MarshalAppend (uninterpreted: arbitrary bytes of symbolic content, length split over a short menu)")
+			lens := []int{0, 7, 300}
+			if w.E.Cfg.Tier > 0 {
+				lens = []int{0, 1, 2, 7, 300}
+			}
+			var n int
+			if d, ok := w.nextFixed("stub:marshalLen"); ok {
+				n = int(d.Val)
+			} else {
+				n = lens[w.split(len(lens))]
+			}
+			w.draws = append(w.draws, Draw{Name: "stub:marshalLen", Kind: "range", Val: uint64(n)})
+			bs := w.drawBytes("stub:marshalBytes", n, "bytes")
+			var out Slice
+			if dstArg >= 0 {
+				out = w.asSlice(args[dstArg])
+			}
+			base := len(out)
+			out = growSlice(out, n)
+			for i := 0; i < n; i++ {
+				out[base+i] = bs[i]
+			}
+			if out == nil {
+				out = Slice{}
+			}
+			return Tuple{out, Iface{}}, true
 		}
-		var n int
-		if d, ok := w.nextFixed("stub:marshalLen"); ok {
-			n = int(d.Val)
-		} else {
-			n = lens[w.split(len(lens))]
-		}
-		w.draws = append(w.draws, Draw{Name: "stub:marshalLen", Kind: "range", Val: uint64(n)})
-		bs := w.drawBytes("stub:marshalBytes", n, "bytes")
-		out := make(Slice, n)
-		for i := range out {
-			out[i] = bs[i]
-		}
-		return Tuple{out, Iface{}}, true
 	}
+	intrinsics["google.golang.org/protobuf/proto.Marshal"] = marshal(0, -1)
+	intrinsics["(google.golang.org/protobuf/proto.MarshalOptions).Marshal"] = marshal(1, -1)
+	intrinsics["(google.golang.org/protobuf/proto.MarshalOptions).MarshalAppend"] = marshal(2, 1)
 	intrinsics["google.golang.org/protobuf/proto.Unmarshal"] = func(w *Worker, fr *frame, args []Value) (Value, bool) {
 		w.recordCall(fr, args)
 		return Iface{}, true
